@@ -26,6 +26,6 @@ def run(ctx):
         evaluations=s.get("history.actions", 0),
         floors={"histories": 3000, "events.stat_setfile": 5000, "events.reload_changed_view": 1500, "events.reload_now_deferred": 300, "p2.deadline_checks": 5000,
                 "histories.with_iterator_alive_across_setfile_change": 300, "p4.ops_on_iterator_older_than_setfile": 1000, "actions.destroy_original": 50, "actions.dup": 500,
-                "actions.reload_now": 1000, "histories.with_tables_in_a_sibling_directory": 500, "actions.setfile_line_absolute_outside_setfile_directory": 1000, "histories.max_handles.3": 50, "histories.scripted.1": 40, "histories.scripted.2": 40, "ops.next.success": 20000},
+                "actions.reload_now": 1000, "histories.with_tables_in_a_sibling_directory": 500, "histories.fileset_opened_by_a_name_relative_to_the_working_directory": 500, "actions.setfile_line_absolute_outside_setfile_directory": 1000, "histories.max_handles.3": 50, "histories.scripted.1": 40, "histories.scripted.2": 40, "ops.next.success": 20000},
         extra={"reload_attempts_observed": s.get("events.reload_attempts", 0), "attempts_that_changed_the_view": s.get("events.reload_changed_view", 0),
                "deferred_reload_nows": s.get("events.reload_now_deferred", 0), "actions_by_type": {k[len("actions."):]: v for k, v in s.items() if k.startswith("actions.")}})
